@@ -105,13 +105,27 @@ def reduction_oracle(ctx, M, D, form, deg, lam_sound, w, tag="", rng=None, check
     if rng is not None:
         rows += [rng.randrange(1 << nd) for _ in range(3)]
         rows += [0, (1 << nd) - 1]
+        if nd > n:
+            # every model variable at 1 / +1 and only ancillas elsewhere (never a solver's answer, still an assignment of D)
+            rows += [((rng.randrange(1, 1 << (nd - n))) << n) | (0 if dspin else (1 << n) - 1)]
     mmin = float(mv.min()) if mv.size else 0.0
     for j, i in enumerate(rows):
         bits = [(i >> b) & 1 for b in range(nd)]
         s = [1 - 2 * b for b in bits] if dspin else bits
         cont = (j + i) % 3
         sol = s if cont == 0 else (tuple(s) if cont == 1 else dict(enumerate(s)))
-        ok, x = ctx.call("convert_solution", M.convert_solution, sol, spin=dspin, _w=w)
+        # documented: the flag only matters for a solution made of 1s alone; whenever the full solution (ancillas
+        # included) shows a -1 or a 0 the flag may be omitted or even contradict it
+        ckw = {"spin": dspin}
+        if any(v != 1 for v in s):
+            fl = (j + 2 * i) % 4
+            if fl == 1:
+                ckw = {}
+                ctx.count("convert_solution:flag-omitted")
+            elif fl == 2:
+                ckw = {"spin": not dspin}
+                ctx.count("convert_solution:flag-contradicts-form")
+        ok, x = ctx.call("convert_solution", M.convert_solution, sol, _w=dict(w, convert_solution_kwargs=ckw, solution=sol), **ckw)
         ctx.count("convert_solution-calls")
         if not ok:
             return None
